@@ -553,12 +553,15 @@ def load_known():
 
 
 def _worker(job):
-    fn, pid, tier, seed, task = job
+    fn, pid, tier, seed, task, deadline = job
     import traceback
-    T.reset()
-    _CONGR_CACHE.clear()
     sub = Run(pid, tier, seed)
     t_start = time.time()
+    if deadline is not None and t_start > deadline:
+        sub.extra['tasks_skipped_budget'] = 1
+        return sub.export()
+    T.reset()
+    _CONGR_CACHE.clear()
     try:
         fn(sub, task)
     except Exception as e:
@@ -579,11 +582,21 @@ def _worker(job):
 
 
 def parallel(run, fn, tasks, nproc=None):
-    """run fn(subrun, task) for every task in worker processes and merge the results into run"""
+    """run fn(subrun, task) for every task in worker processes and merge the results into run.
+    Thorough tier: a per-phase time budget (VERIF_PHASE_BUDGET_S, default 1500 s) bounds the exploration - tasks are taken in a
+    seeded random order and tasks not started when the budget is spent are skipped and COUNTED in the evidence
+    (tasks_skipped_budget); the quick tier always runs everything."""
     import multiprocessing as mp
     if nproc is None:
         nproc = int(os.environ.get('VERIF_JOBS', '0') or 0) or min(14, os.cpu_count() or 1)
-    jobs = [(fn, run.pid, run.tier, run.seed, t) for t in tasks]
+    deadline = None
+    tasks = list(tasks)
+    if run.tier == 'thorough':
+        budget = float(os.environ.get('VERIF_PHASE_BUDGET_S', '1500') or 1500)
+        deadline = time.time() + budget
+        random.Random(run.seed * 7919 + len(tasks)).shuffle(tasks)
+    jobs = [(fn, run.pid, run.tier, run.seed, t, deadline) for t in tasks]
+    run.extra['tasks_total'] = run.extra.get('tasks_total', 0) + len(jobs)
     if nproc <= 1 or len(jobs) <= 1:
         for j in jobs:
             run.absorb(_worker(j))
